@@ -156,6 +156,19 @@ def structural_edit(wire, m):
 def mutate(wire, m):
     if m is None:
         return wire
+    if m['t'] == 'sigflip':
+        # flip one byte inside the SignatureValue (nothing else changes)
+        for is_int in (False, True):
+            try:
+                p = tlvref.parse_interest(wire) if is_int else tlvref.parse_data(wire)
+            except tlvref.TlvError:
+                continue
+            if p.sig_value:
+                idx = wire.rfind(p.sig_value)
+                b = bytearray(wire)
+                b[idx + m.get('off', 0) % len(p.sig_value)] ^= m.get('x', 1) or 1
+                return bytes(b)
+        return wire
     if m['t'] == 'tlv':
         return structural_edit(wire, m)
     if m['t'] == 'len':         # raw length byte +-1 somewhere in a TL header (no fix-up)
@@ -215,6 +228,7 @@ class SigWorld(World):
         self.papp = self._mk_app(self.pfe, self.pface)
         self.flows = {f['id']: f for f in scenario['ops']}
         self.inflight = {}          # direction -> flow id currently expecting the next packet
+        self.checkers = {}
         self.harness_tasks = set()
 
     def _mk_app(self, fe, face):
@@ -247,7 +261,9 @@ class SigWorld(World):
     # ---- validators ---------------------------------------------------------------------------
     def _wrap_checker(self, flow, fe, role):
         kind, kidx = flow['signer'], flow['key'] if flow.get('verifier', 'match') == 'match' else flow['key'] + 1
-        checker = make_checker(kind, kidx)
+        if (kind, kidx) not in self.checkers:
+            self.checkers[(kind, kidx)] = make_checker(kind, kidx)
+        checker = self.checkers[(kind, kidx)]
         world = self
 
         async def run(name, sig):
@@ -278,14 +294,18 @@ class SigWorld(World):
     # ---- flows --------------------------------------------------------------------------------
     async def _flow(self, flow):
         fid = flow['id']
-        name = [bytes(c) for c in tlvref.name_from_uri('/' + '/'.join(flow['name']))]
+        src = flow
+        if flow.get('same_as') is not None and flow['same_as'] in self.flows:
+            src = self.flows[flow['same_as']]      # the same packet once more (same name, content, signer, key)
+        name = [bytes(c) for c in tlvref.name_from_uri('/' + '/'.join(src['name']))]
+        cfid = src['id']
         self.tok(f'F{flow["dir"][0]}{flow["signer"][:2]}')
         rec = []
         flow['_signed_bytes'] = rec
         if flow['dir'] == 'data':
             # producer answers with signed Data; the Data is what the middlebox touches
             signer = None if flow['signer'] == 'none' else RecordingSigner(make_signer(flow['signer'], flow['key'], False), rec)
-            content = bytes((i * 3 + fid) & 0xff for i in range(flow['content_len']))
+            content = bytes((i * 3 + cfid) & 0xff for i in range(src['content_len']))
             dwire = bytes(enc.make_data(name, enc.MetaInfo(freshness_period=flow.get('fresh')), content, signer=signer))
             flow['_made'] = dwire
 
@@ -328,7 +348,13 @@ class SigWorld(World):
                 self.inflight['p2c'] = None
                 self.pface.send(data)
             validator = self._wrap_checker(flow, self.pfe, 'producer')
-            self._attach(self.papp, self.pfe, name, handler, validator)
+            attach_name = name
+            if flow.get('placeholder_at') is not None:
+                # a ParametersSha256Digest placeholder inside the name (the encoder fills it in): route = the part before it
+                k = 2 + flow['placeholder_at'] % max(1, len(name) - 1)
+                name = name[:k] + [tlvref.tlv(tlvref.T_PARAMS_DIGEST, bytes(32))] + name[k:]
+                attach_name = name[:k]
+            self._attach(self.papp, self.pfe, attach_name, handler, validator)
 
             async def accept_all_v2(n, s, c):
                 return ndn_types.ValidResult.PASS
@@ -357,7 +383,7 @@ class SigWorld(World):
             except BaseException as e:
                 self.log('flow-done', fid=fid, out='error', exc=exc_brief(e), where=innermost_ndn_frame(e))
             flow['_reached'] = reached
-            self._detach(self.papp, self.pfe, name)
+            self._detach(self.papp, self.pfe, attach_name)
         self.inflight['c2p'] = None
         self.inflight['p2c'] = None
 
@@ -560,7 +586,8 @@ def generate(rng, seed, tier='quick'):
            'wall_gran_us': 1000}
     flows = []
     heavy = rng.random() < 0.25
-    for i in range(rng.randint(1, 5)):
+    for _i in range(rng.randint(1, 5)):
+        i = len(flows)
         d = rng.choice(['data', 'data', 'interest'])
         signer = rng.choice(['digest', 'hmac', 'ecdsa', 'ecdsa', 'ed25519', 'null', 'none'] + (['rsa'] if heavy or rng.random() < 0.3 else []))
         if d == 'interest' and signer == 'null':
@@ -587,7 +614,17 @@ def generate(rng, seed, tier='quick'):
                 f['hop'] = rng.randint(0, 255)
         if rng.random() < 0.1:
             f['dup'] = True
+        if d == 'interest' and rng.random() < 0.15:
+            f['placeholder_at'] = rng.randint(0, 3)
         flows.append(f)
+        if d == 'data' and signer in ('hmac', 'rsa', 'ecdsa', 'ed25519') and f['mutation'] is None and f['verifier'] == 'match' \
+                and rng.random() < 0.5:
+            # the genuine packet was accepted; now the same packet with another signature value, same verifier object
+            g = dict(f)
+            g['id'] = len(flows) + 1
+            g['same_as'] = f['id']
+            g['mutation'] = {'t': 'sigflip', 'off': rng.randint(0, 80), 'x': 1 << rng.randint(0, 7)}
+            flows.append(g)
     return {'engine': 'sigs', 'property': 'C02', 'seed': seed, 'config': cfg, 'ops': flows}
 
 
